@@ -111,7 +111,7 @@ def rule_one_append(ctx, rep):
         for c in appends:
             v = r.expand(c.args[0]) if c.args else None
             is_line = isinstance(c.args[0], ast.Name) and c.args[0].id == line_var
-            is_sub = isinstance(v, ast.Call) and last_attr(v.func) == "_apply_regex" and v.args and isinstance(v.args[0], ast.Name) and v.args[0].id == line_var
+            is_sub = _is_substitution(v, line_var)
             if not (is_line or is_sub):
                 vals_ok = False
                 bad_val = c
@@ -132,7 +132,7 @@ def rule_one_append(ctx, rep):
         rep.check("R-ONE-APPEND-PER-LINE", q, fn.loc(lp), ok, "one-append", "; ".join(why), appends=len(appends))
         if "Sast" in q:
             # substitution only under line_matches_result
-            subs = [c for c in walk_no_nested(lp) if isinstance(c, ast.Call) and last_attr(c.func) == "_apply_regex"]
+            subs = [c for c in walk_no_nested(lp) if _is_substitution(c, line_var)]
             fa2 = ctx.flow(fn)
             ok2 = bool(subs) and all(
                 any(pol and isinstance(e, ast.Call) and last_attr(e.func) == "line_matches_result" for pol, e in fact_exprs(fa2.must_at(c)))
@@ -140,6 +140,15 @@ def rule_one_append(ctx, rep):
             )
             rep.check("R-ONE-APPEND-PER-LINE", q, fn.loc(subs[0]) if subs else fn.loc(), ok2, "sast-gate",
                       "the SAST regex pipeline substitutes on a line that is not gated by line_matches_result (lines without a finding are edited)")
+
+
+def _is_substitution(v, line_var: str) -> bool:
+    """A regex substitution applied to the current line: re.sub(p, r, line) / <pattern>.sub(r, line) / a helper taking the line."""
+    if not isinstance(v, ast.Call):
+        return False
+    takes_line = any(isinstance(a, ast.Name) and a.id == line_var for a in list(v.args) + [k.value for k in v.keywords])
+    name = last_attr(v.func) or ""
+    return takes_line and (name in ("sub", "subn") or "regex" in name or "replace" in name.lower() and isinstance(v.func, ast.Attribute) and unparse(v.func.value) == "self")
 
 
 def rule_cdata_state(ctx, rep):
